@@ -30,6 +30,9 @@ CONTROLS: List[Tuple[str, str, str, str, Callable[[Program], list], str]] = [
     ("R-REMAINDER", "geobox", "",
      "def _vp_ctl_rem(t):\n    import math\n    return math.fmod(t, 1.0)\n",
      lambda p: generic.rule_remainder_owner(p, {"geobox"}), "_vp_ctl_rem#asym"),
+    ("R-TOL", "math", "",
+     "def _vp_ctl_tol(x, tol=1e-6):\n    from math import isclose\n    return isclose(x, round(x), abs_tol=tol)\n",
+     lambda p: generic.rule_isclose(p, {"math"}), "_vp_ctl_tol#isclose"),
     ("R-ABSEPS", "geobox", "GeoBox",
      "def _vp_ctl_abseps(self):\n    return self._affine.is_rectilinear\n",
      lambda p: generic.rule_abseps(p, {"geobox"}), "_vp_ctl_abseps#abs-eps"),
